@@ -1034,7 +1034,10 @@ class DateTime(datetime.datetime, Date):
         if day_of_week is None:
             return dt.set(day=1)
 
-        month = calendar.monthcalendar(dt.year, dt.month)
+        # Monday-first weeks, whatever calendar.setfirstweekday() says
+        month = calendar.Calendar(calendar.MONDAY).monthdayscalendar(
+            dt.year, dt.month
+        )
 
         calendar_day = day_of_week
 
@@ -1057,7 +1060,10 @@ class DateTime(datetime.datetime, Date):
         if day_of_week is None:
             return dt.set(day=self.days_in_month)
 
-        month = calendar.monthcalendar(dt.year, dt.month)
+        # Monday-first weeks, whatever calendar.setfirstweekday() says
+        month = calendar.Calendar(calendar.MONDAY).monthdayscalendar(
+            dt.year, dt.month
+        )
 
         calendar_day = day_of_week
 
